@@ -110,6 +110,17 @@ def run(chk, tier):
                 events.append({"tid": tid, "mx": zbig(mx), "mn": zbig(mn), "dtype": name, "exc": exc})
                 raw[tid] = (mx, mn, name)
                 callers[tid] = "to_array() of values %s with common %s" % (vals, common)
+                # dense output through a mapping that does not mention the common value: whatever is written into the
+                # cells of the common value, the dtype chosen for the output has to hold it (no OverflowError)
+                part = {v: k + 1 for k, v in enumerate(sorted(set(vals))) if v != common}
+                if part:
+                    try:
+                        idx.to_array(mapping=part)
+                    except OverflowError as e:
+                        chk.violation("call-site:to_array(mapping):OverflowError", "to_array(mapping=%s) of values %s with common %s: %s" % (part, vals, common, e),
+                                      {"call_site": "to_array-partial-mapping", "values": vals, "common": common, "mapping": {str(k): v for k, v in part.items()}})
+                    except Exception:  # noqa  (anything else is outside what this property says)
+                        pass
     wd = core.workdir("c19")
     try:
         classes = [1, 255, 256, 65535, 65536, 2 ** 32 - 1, 2 ** 32, 2 ** 63 - 1]
@@ -206,6 +217,16 @@ def replay(chk, path):
     r = json.load(open(path))["replay"]
     if r.get("call_site") == "collapsed":
         return collapsed_call_site(chk)
+    if r.get("call_site") == "to_array-partial-mapping":
+        from catii.iindexes import iindex
+        from ..drivers.index import canonical
+        idx = canonical(iindex, numpy.array(r["values"], dtype=object), r["common"])
+        try:
+            idx.to_array(mapping={int(k): v for k, v in r["mapping"].items()})
+        except OverflowError as e:
+            chk.violation("call-site:to_array(mapping):OverflowError", str(e), r)
+        chk.traces = 1
+        return
     name = numpy.dtype(fit_dtype(r["max"], r["min"])).name
     ev = [{"tid": 1, "mx": zbig(r["max"]), "mn": zbig(r["min"]), "dtype": name, "exc": False}]
     res, verdicts = core.validate_batch("Trace_FitDtype.tla", "Trace_FitDtype.cfg", ev, workers=1)
